@@ -1137,6 +1137,30 @@ expand_manifests(string &expr, bool expand_undefined,
         }
       }
     }
+    else if (isdigit(expr[p]) ||
+             (expr[p] == '.' && p + 1 < expr.size() && isdigit(expr[p + 1]))) {
+      // A number.  Its prefix, suffix and exponent letters are not identifiers
+      // (10L, 0x10, 1e5), and a ' inside it is a digit separator.
+      p++;
+      while (p < expr.size()) {
+        char c = expr[p];
+        if (isalnum(c) || c == '_' || c == '.') {
+          p++;
+        }
+        else if ((c == '+' || c == '-') &&
+                 (expr[p - 1] == 'e' || expr[p - 1] == 'E' ||
+                  expr[p - 1] == 'p' || expr[p - 1] == 'P')) {
+          p++;
+        }
+        else if (c == '\'' && p + 1 < expr.size() &&
+                 (isalnum(expr[p + 1]) || expr[p + 1] == '_')) {
+          p += 2;
+        }
+        else {
+          break;
+        }
+      }
+    }
     else if (expr[p] == '\'' || expr[p] == '"') {
       // Skip the next part until we find a closing quotation mark.
       char quote = expr[p];
